@@ -12,7 +12,7 @@ Operations (node ids are creation indices):
     ["unregister", n, mid]
     ["use", n]                                first use of n (a probe call)
 
-mspec: {"mid", "t": class name, "kind": leaf|walk_list|map_list|deep_list|nest_list|walk_tuple|wrap|self_list, "prio"}
+mspec: {"mid", "t": class name, "kind": leaf|nextleaf|walk_list|acc_list|map_list|deep_list|nest_list|walk_tuple|wrap|self_list, "prio"}
 
 Model of one node: ordered parents, linkback flag, own = stack of mids per signature
 (signature = (type name, priority)); the effective table overlays the parents' tables in mixin
@@ -69,6 +69,24 @@ class Node:
         return out
 
 
+class _AlwaysEq:
+    """equal to anything it is compared with (except None, so that results can be compared): always-equal test
+    doubles, expression builders whose == returns a truthy node"""
+    def __eq__(self, other):
+        return other is not None
+
+    def __ne__(self, other):
+        return other is None
+
+    __hash__ = object.__hash__
+
+    def __repr__(self):
+        return "<always-equal>"
+
+
+ALWAYS_EQ = _AlwaysEq()
+
+
 class Graph:
     def __init__(self, env, vf, tag="g"):
         self.env = env
@@ -78,7 +96,7 @@ class Graph:
         self.fns = {}      # mid -> function
         self.mspecs = {}   # mid -> mspec
         self.files = []
-        self.ns = {"__vf": vf}   # one shared globals dict, like a user's module
+        self.ns = {"__vf": vf, "__ALWAYS_EQ": ALWAYS_EQ}   # one shared globals dict, like a user's module
         self.log = []
         # on-demand registrations: performed on the real function during the real call (log of ok / refused), then
         # replayed at the same point of the reference interpretation
@@ -162,6 +180,11 @@ class Graph:
             body = f"return ('T{mid}',) + tuple(recurse(e) for e in x)"
         elif kind == "wrap":
             body = f"return {{'W{mid}': recurse(x['v'])}}"
+        elif kind == "acc_list":   # a second argument whose == answers "equal" to whatever it is compared with
+            if mid % 2:             # in place (rewritten into a lookup) ...
+                body = f"return ['Q{mid}'] + [recurse(e, __ALWAYS_EQ) for e in x]"
+            else:                   # ... or through the function object itself
+                body = f"return ['Q{mid}'] + list(map(recurse, x, [__ALWAYS_EQ] * len(x)))"
         elif kind == "map_list":   # recurse used as a first-class value, not called in place
             body = f"return ['M{mid}'] + list(map(recurse, x))"
         elif kind == "self_list":
@@ -316,6 +339,8 @@ class Graph:
             return [f"O{mid}"] + [self.ev(n, e) for e in v]
         if kind == "map_list":
             return [f"M{mid}"] + [self.ev(n, e) for e in v]
+        if kind == "acc_list":
+            return [f"Q{mid}"] + [self.ev(n, e, ALWAYS_EQ) for e in v]
         if kind == "deep_list":
             return [f"D{mid}"] + [self.ev(n, e) for e in v]
         if kind == "walk_tuple":
